@@ -638,6 +638,12 @@ func copyFileAtomic(src, dst string) error {
 		return err
 	}
 
+	// The data must be on disk before the name is: after a power cut a file
+	// that was renamed but never synced may be there with no contents.
+	if err := tmp.Sync(); err != nil {
+		return err
+	}
+
 	if err := tmp.Close(); err != nil {
 		return err
 	}
